@@ -474,6 +474,47 @@ func loopFamily(nullableBodies bool) []Pat {
 	return finalize("LOOP", trees, map[string]bool{}, false)
 }
 
+// ---- LOOP3: group loops whose body is three items (a literal head, then loops): the shapes on which the
+// auto-atomic analysis has to look past the end of a loop body (what follows the body's last loop is either the next
+// iteration's head or what follows the group) ----
+
+func loop3Family(full bool) []Pat {
+	heads := []*Node{lit('a'), lit('b'), litStr("ab"), litStr("ba")}
+	loops := []*Node{rep(lit('a'), 0, -1, false), rep(lit('b'), 0, -1, false), rep(set(false, 'a', 'b'), 0, -1, false), rep(lit('a'), 1, -1, false),
+		rep(lit('a'), 0, -1, true), rep(lit('a'), 0, 1, false)}
+	tails := []*Node{nil, rep(lit('c'), 0, -1, false), rep(lit('b'), 0, -1, false), rep(lit('c'), 0, 1, false)}
+	counts := []quant{{0, -1, false}, {1, -1, false}, {0, 1, false}, {0, -1, true}, {0, 2, false}, {2, 2, false}}
+	sufs := []*Node{nil, lit('a'), lit('b'), lit('c')}
+	if full {
+		loops = append(loops, rep(anyc(), 0, -1, false), rep(set(true, 'a'), 0, -1, false), rep(lit('b'), 1, -1, true))
+		tails = append(tails, rep(lit('a'), 0, -1, false), rep(set(false, 'b', 'c'), 0, -1, false))
+		counts = append(counts, quant{1, 2, false}, quant{2, -1, false}, quant{1, -1, true})
+		sufs = append(sufs, asrt('$'))
+	}
+	var trees []*Node
+	for _, h := range heads {
+		for _, l := range loops {
+			for _, t := range tails {
+				body := cat(h, l, t)
+				for w := 0; w < 2; w++ {
+					var g *Node
+					if w == 0 {
+						g = &Node{K: KGroup, Kids: []*Node{body}}
+					} else {
+						g = capg(body)
+					}
+					for _, c := range counts {
+						for _, sf := range sufs {
+							trees = append(trees, cat(rep(g, c.min, c.max, c.lazy), sf))
+						}
+					}
+				}
+			}
+		}
+	}
+	return finalize("LOOP3", trees, map[string]bool{}, false)
+}
+
 // ---- LOOK ----
 
 func lookFamily(c01only bool) []Pat {
